@@ -202,6 +202,12 @@ Compile ==
 \* update_model(vec): entry i is handed to prior i, whose prior() maps it to the model (x or 10^x).
 \* vec[i] is the exponent of the value that reaches the model; the harness passes 10^vec[i] to a
 \* linear prior and vec[i] to a log prior.
+\* Coincidence class: the number handed over for a log prior (the exponent vec[i]) is numerically the parameter's
+\* current value 10^value[p] (entry 1 for a parameter that is 1, entry 10 for one that is 10): it still has to be
+\* written (the parameter becomes 10^vec[i]).  For a linear prior the entry is the value itself iff vec[i] = value[p].
+PowTen(e) == CASE e = 0 -> 1 [] e = 1 -> 10 [] e = 2 -> 100 [] OTHER -> -1
+CoincidentLog(vec) == \E i \in 1..Len(compiled) : /\ PMode(compiled[i].prior) = "log"
+                                                  /\ vec[i] = PowTen(value[compiled[i].name])
 UpdateModel(vec) ==
         /\ err' = FALSE
         /\ Len(vec) = Len(compiled)
@@ -209,7 +215,7 @@ UpdateModel(vec) ==
                                     THEN vec[CHOOSE i \in 1..Len(compiled) : compiled[i].name = p]
                                     ELSE value[p]]
         /\ UNCHANGED <<setting, derivedOn, userPrior, priorTab, compiled, compiledDer>>
-        /\ Log([op |-> "update_model", x |-> vec])
+        /\ Log([op |-> "update_model", x |-> vec, co |-> CoincidentLog(vec)])
 
 \* update_model(vec) with a vector whose length is not the number of fitted parameters (shorter or
 \* longer, not empty): refused, nothing is written
